@@ -1930,6 +1930,11 @@ func (t *Topic) anotherUserSub(sess *Session, asUid, target types.Uid, asChan bo
 	// Check if it's a new invite. If so, save it to database as a subscription.
 	// Saved subscription does not mean the user is allowed to post/read
 	userData, existingSub := t.perUser[target]
+	if !existingSub && t.cat == types.TopicCatP2P {
+		// P2P topic has exactly two participants, both are always present in perUser (possibly as deleted).
+		sess.queueOut(ErrPermissionDeniedReply(pkt, now))
+		return nil, errors.New("attempt to add a third participant to a P2P topic")
+	}
 	if !existingSub || userData.deleted {
 		// Check if the max number of subscriptions is already reached.
 		if t.cat == types.TopicCatGrp && t.subsCount() >= globals.maxSubscriberCount {
